@@ -1653,6 +1653,64 @@ func scenarioReconnect(e *env) {
 	e.judge(must)
 }
 
+// idle twice: nobody calls the client while the server closes its connections, twice in a row with
+// a quiet spell in between. "The client reconnects by itself": with no call issued, the server must
+// hold one live session per client connection again within the progress bound after each close
+// (only the client's own pings can notice a dead socket), and the calls issued after that succeed.
+func scenarioIdleTwice(e *env) {
+	workers := e.rng.Range(1, 2)
+	timeout := time.Duration(e.rng.Range(800, 1500)) * time.Millisecond
+	pol := mixPolicy(e.rng)
+	pol.maxDelay, pol.bigAnswers = 30*time.Millisecond, false
+	e.genPct = mon.Pick(e.rng, []int{0, 30})
+	abrupt := e.sc.Idx%2 == 1
+	e.wit["workers_per_connection"], e.wit["rst"] = workers, abrupt
+	if !e.setup(pol, workers, timeout) {
+		return
+	}
+	must := map[string]bool{"healthy-0": true}
+	e.runCallers(2, e.rng.Range(3, 8), "healthy-0", 0)
+	for round := 1; round <= 2 && !e.aborted.Load(); round++ {
+		// a quiet spell first: the second close hits a session that the client set up by itself and
+		// that has carried nothing but its own pings for a while
+		time.Sleep(time.Duration(e.rng.Range(500, 4000)) * time.Millisecond)
+		before := e.srv.Accepted.Load()
+		tClose := time.Now()
+		e.srv.ClosePeers(abrupt)
+		e.w.Seen("faults", fmt.Sprintf("idle-twice/close-%d/rst=%v", round, abrupt))
+		back := false
+		for time.Since(tClose) < progressT && !e.aborted.Load() {
+			if e.srv.Accepted.Load() >= before+int64(e.workers) && len(e.srv.Peers()) >= e.workers {
+				back = true
+				break
+			}
+			time.Sleep(50 * time.Millisecond)
+		}
+		if e.aborted.Load() {
+			return
+		}
+		if !back {
+			if late := e.worstSince(tClose); late > lateLimit {
+				e.w.Inconclusive("no reconnect within the progress bound on a loaded machine")
+			} else {
+				dump := dumpStacks()
+				e.w.Violation(fmt.Sprintf("not-reconnected-by-itself@idle/close-%d", round), e.witness(map[string]any{"bound_s": progressT.Seconds(), "calls_issued_since_the_close": 0,
+					"sessions_since_the_close": e.srv.Accepted.Load() - before, "live_sessions_at_server": len(e.srv.Peers()), "connections": e.workers, "tongo_goroutines": tongoStacks(dump)}))
+			}
+			e.judge(must)
+			return
+		}
+		e.w.Seen("self_reconnect_time_s", fmt.Sprintf("close-%d: %d", round, int(time.Since(tClose).Seconds())))
+		e.w.Count("reconnects_without_any_call", 1)
+		time.Sleep(100 * time.Millisecond) // the client marks the connection usable right after the handshake
+		phase := fmt.Sprintf("healthy-%d", round)
+		must[phase] = true
+		e.runCallers(2, e.rng.Range(3, 8), phase, 0)
+	}
+	e.w.Seen("shapes", fmt.Sprintf("idle-twice/w=%d", workers))
+	e.judge(must)
+}
+
 // directed schedule: the server interleaves a tcp.authentificationNonce (an
 // unrelated packet: the client never asked to authenticate) and then closes
 // the connection and turns clients away for a while. The hook callback holds
@@ -1861,6 +1919,8 @@ func runScenario(w *mon.Worker) {
 		scenarioGrowth(e)
 	case "directed":
 		scenarioAuthNonce(e)
+	case "idletwice":
+		scenarioIdleTwice(e)
 	case "slow":
 		scenarioSlow(e)
 	case "edge":
@@ -1952,7 +2012,7 @@ func main() {
 	}
 	R := mon.Start("C12", tier)
 	R.Rule = "one evaluation per Client call (raw Request or generated LiteServerGetLibraries) issued by 1..64 goroutines over 1..4 connections against the reference ADNL server with a seed-driven adversarial answer scheduler " +
-		"(now / delayed / permuted coalesced batches / twice / the same answer 2..8 times at once, also right at the caller's deadline / preceded by an answer to an unknown id / surrounded by pongs and junk / never; connections closed mid-request or idle, with FIN or RST, all or one, once or twice per client; clients turned away, listener closed, or sessions dropped again right after they were re-established); " +
+		"(now / delayed / permuted coalesced batches / twice / the same answer 2..8 times at once, also right at the caller's deadline / preceded by an answer to an unknown id / surrounded by pongs and junk / never; connections closed mid-request or idle, with FIN or RST, all or one, once or twice per client, also twice in a row on an idle client (nobody calls; the sessions must come back by themselves within the progress bound); clients turned away, listener closed, or sessions dropped again right after they were re-established); " +
 		"about one call in seven is made with a context of the caller's (deadline later or earlier than the client's timeout, cancelled in flight, already cancelled / expired on entry): the call is over by min(client timeout, caller's deadline or cancellation); requests and answers also take the lengths 253..257 around the TL length-prefix boundary; a status poller calls Client.AverageRoundTrip and IsOK next to the callers; " +
 		"every call carries a unique key and every answer the server produced is logged under it, so a successful call is compared with the answers produced for its own query id; distinct = distinct calls. " +
 		"Monitors: own answer; success in fault-free phases (a timeout counts when the server wrote the answer within timeout-2 s, or within half the timeout for timeouts below 4 s while the load probe saw nothing); return by allowed time+2 s (load-aware; +300 ms while the load probe saw nothing at all); after the answers-at-the-deadline phase sequential calls must still get through (client stuck = most of them lost and a client goroutine blocked on a channel send / lock in two dumps); 2*connections consecutive successes and IsOK within 45 s of the server accepting again; goroutines inside tongo equal after 10x more calls; 60 s watchdog; race detector; interleavings = distinct sequences of hook events (first 24) observed while a call was in flight"
@@ -1977,6 +2037,7 @@ func main() {
 		}
 	}
 	// reconnect scenarios first: they are the long ones (tongo's 3 s ping / 1 s retry timers)
+	add("idletwice", R.N(1, 4))
 	add("slow", R.N(1, 6))
 	add("edge", R.N(2, 30))
 	add("reconnect", R.N(7, 40))
